@@ -64,6 +64,22 @@ CLAIMS = {
          "origins down and compared with the model.",
          "Coq proof over the crash-point model + crash-image correspondence via hook sites", "DESIGN.md §3 C12",
          "process death is emulated by copying the work directory at the instant (no power-loss semantics); LevelDB's own recovery of a copied directory is library behaviour, exercised not proved."),
+ "C02": ("Coq theorems C02_revoked_fetched (for every responder list, position and behaviour of the other responders the first authentic "
+         "'revoked' decides), C02_revoked_cached, C02_strict, C02_lenient, C02_no_responder over the OCSP loop model; every responder list of "
+         "length <= 2 (thorough: 3) over ten behaviours x strict x cache duration run as real handshakes, second handshake with all "
+         "responders down, compared with the model.",
+         "Coq proof by induction over responder lists + exhaustive responder-table correspondence", "DESIGN.md §3 C02", ""),
+ "C05": ("Coq theorems C05_unauthentic_is_no_answer (a non-authentic response has exactly the effect of no response, on verdict and cache, "
+         "anywhere in the list) and C05_cache_only_authentic; the bit 'authentic' is established against the real code for every signer "
+         "kind (issuer, delegate with/without OCSPSigning EKU, the client's own certificate, stranger with/without embedded certificate, "
+         "sibling CA), wrong serial, all OCSP error statuses and single-byte mutations of authentic responses.",
+         "Coq proof over the answer-filter model + forged-response correspondence", "DESIGN.md §3 C05",
+         "that RSA/ECDSA verification in x/crypto/ocsp rejects what it should is library behaviour, exercised with real signatures, not proved."),
+ "C14": ("Coq theorems C14_key, C14_lifetime(+_value), C14_reads_do_not_extend, C14_expired_never_returned, C14_zero_caches_nothing, "
+         "C14_failed_not_cached over the cache model (integer time, skew from the source); real-time runs with 400/700 ms lifetimes read at "
+         "3/8 of the lifetime, two issuers with identical subject+serial, future/past nextUpdate, zero duration, two validator instances.",
+         "Coq proof over the cache model + timed correspondence", "DESIGN.md §3 C14",
+         "wall-clock time and cache2go's timers are runtime behaviour: the model treats time as exact integers, the harness judges only observations at least 20% away from the expiry boundary."),
  "C03": ("Coq theorems C03_table/C03_enabled/C03_iff/C03_effects over a model whose mode table, enable predicates and "
          "VerifyClientCertificate stage list are regenerated from the Go source on every run; plus an exhaustive 1536-cell "
          "table of real handshakes evaluated against the model (vm_compute) and against the property's own wording.",
